@@ -83,6 +83,16 @@ class Ctx:
             if tlo < 0:
                 pool.append(-1)
             return [r.choice(pool) if r.random() < 0.6 else r.randint(max(tlo, lo), min(thi, hi)) for _ in range(n)]
+        if lo == -1 and tlo < 0 and n > 0:
+            # an option-type index (negative = missing): also all-missing and no-missing arrays, and dense/sparse mixes
+            q = r.random()
+            if q < 0.12:
+                return [-1] * n
+            if q < 0.24:
+                return [r.randint(0, min(thi, hi)) for _ in range(n)]
+            if q < 0.5:
+                p = r.choice([0.2, 0.5, 0.8])
+                return [-1 if r.random() < p else r.randint(0, min(thi, hi)) for _ in range(n)]
         return [r.randint(max(tlo, lo), min(thi, hi)) for _ in range(n)]
 
     def mask(self, name, n):
